@@ -24,6 +24,7 @@ func init() {
 		ruleR2(c, "C10.W7")
 		ruleF3(c, "C10.W8")
 		ruleRefused(c, "C10.W9")
+		ruleT1(c, "C10.W10")
 	}
 }
 
